@@ -400,15 +400,20 @@ def _bpm_shapes(tier):
     if tier == 'quick':
         mn = [(1, 1), (1, 2), (2, 2), (2, 3), (3, 3), (3, 5), (4, 4)]
     else:
-        mn = [(m, n) for m in range(1, 7) for n in range(m, m + 3)] + [(63, 63), (64, 64), (65, 65), (64, 66)]
+        mn = [(m, n) for m in range(1, 7) for n in range(m, m + 3)] + [(63, 63), (64, 64), (65, 65), (64, 66), (128, 128)]
+    if tier == 'quick':
+        mn += [(64, 64)]          # block boundary: last block completely filled (no wildcard padding)
     for m, n in mn:
         sig = 3 if m < 16 else 2
-        uw = max(n + 64 * ((m + 63) // 64) - m, 70) + 3
-        out.append(dict(name='m%d_n%d' % (m, n), defs=dict(KV_M=m, KV_N=n, KV_SIGMA=sig), unwind=uw))
+        uw = n + 64 * ((m + 63) // 64) + 70   # generous: text columns + at most one block of padding, and then some
+        d = dict(KV_M=m, KV_N=n, KV_SIGMA=sig)
+        if m >= 16:
+            d['KV_FREE'] = 5 if tier == 'quick' else 8
+        out.append(dict(name='m%d_n%d' % (m, n), defs=d, unwind=uw))
     return out
 Q(id='C11.bpm_block', props=['C11', 'C12'], cls='B', harness='c11_bpm_block.c', entry='h_c11_bpm_block', shapes=_bpm_shapes,
   mode='wrap', timeout=1800, funcs=['bpm_block', 'bpm'], trusted=[TRUST_MSG],
-  assumptions=[A_WRAP, 'bounded: pattern 1-4 (thorough 1-6, 63, 64, 65) symbols, text up to pattern+2, contents symbolic over 3 (2) symbols of the 13-symbol alphabet'],
+  assumptions=[A_WRAP, 'bounded: pattern 1-4 (thorough 1-6) symbols fully symbolic over 3 symbols; patterns of 63/64/65/128 symbols with only the last 5 (8) symbols of text and pattern symbolic over 2 symbols'],
   native_srcs=['lib/src/tldevel.c'])
 
 # =========================================================================== C16 lifecycle
